@@ -17,7 +17,10 @@ CAP = 250
 
 
 def cases(tier, seed):
-    return D.spec_cases(tier, seed, None, 400, 2200, "c04")
+    out = D.spec_cases(tier, seed, None, 400, 2200, "c04")
+    # appended classes of vlib/gen2.py (added after the generator freeze; see DESIGN.md 2.2)
+    from vlib import gen2
+    return out + gen2.appended(tier, seed, "c04", ['A1', 'A2', 'A3', 'A4'], 72, 440)
 
 
 def run_case(case):
